@@ -3,6 +3,17 @@
 Only the property text and a scratch worktree path are given (nothing from /verif)."""
 import json, sys
 pid = sys.argv[1]
+AVOID = ''
+try:
+    prev = []
+    import glob, os
+    for d in sorted(glob.glob('/verif/seeded/%s-*/meta.json' % pid)):
+        m = json.load(open(d))
+        prev.append('  - ' + (m.get('summary') or '')[:400].replace('\n', ' '))
+    if prev:
+        AVOID = '\nOther developers have ALREADY tried the following changes; yours must be of a DIFFERENT kind (different function or mechanism, different trigger), not variations of these:\n' + '\n'.join(prev) + '\n'
+except Exception:
+    pass
 wt = sys.argv[2] if len(sys.argv) > 2 else '/tmp/wt-' + pid
 for l in open('/verif/properties.jsonl'):
     p = json.loads(l)
@@ -20,6 +31,7 @@ TITLE: {p['title']}
 STATEMENT: {p['statement']}
 QUANTIFIER: {p['quantifier']['text']}
 
+{AVOID}
 Your task: produce TWO different, independent changes (mutations) to the library source (under {wt}/src/numdifftools, not the tests) each of which
   (a) BREAKS the property above (for some input / configuration / history in the quantifier's range),
   (b) still imports fine and still passes the existing test-suite baseline, and
@@ -27,13 +39,13 @@ Your task: produce TWO different, independent changes (mutations) to the library
 
 How to run things:
   * Python with numpy/scipy: /venv/bin/python ; use the library with PYTHONPATH={wt}/src
-  * Test-suite baseline: cd {wt} && /venv/bin/python -m pytest -q -p no:cacheprovider --timeout=900 --continue-on-collection-errors -x -q 2>&1 | tail -5  -- NOTE: on the UNCHANGED tree exactly 104 tests pass and 44 fail/error (the failures are pre-existing, e.g. np.trapz removed, missing algopy/statsmodels). First run it on the unchanged tree WITHOUT -x and save the set of passing test ids (use -rA or --junitxml), then after each mutation verify that the same 104 tests still pass (no previously passing test may fail).
-  * Some library behaviours are already broken on the unchanged tree (e.g. anything that calls np.percentile on complex data raises TypeError); do not rely on those paths.
+  * Test-suite baseline: cd {wt} && /venv/bin/python -m pytest -q -p no:cacheprovider --timeout=900 --continue-on-collection-errors -x -q 2>&1 | tail -5  -- NOTE: on the UNCHANGED tree exactly 108 tests pass and about 40 fail/error (the failures are pre-existing, e.g. np.trapz removed, missing algopy/statsmodels). First run it on the unchanged tree WITHOUT -x and save the set of passing test ids (use -rA or --junitxml), then after each mutation verify that the same 108 tests still pass (no previously passing test may fail).
+  * The source contains a few lines guarded by `_verif.ON` (inactive tracing hooks): leave them alone, they are not part of the behaviour.
 
 Deliverables, written into {wt}/out/ (create it):
   * mut1.diff and mut2.diff : each produced with `git -C {wt} diff` for that mutation ALONE relative to the unchanged tree (apply one, save diff, `git -C {wt} checkout -- src`, then the other). Each must apply cleanly with `git apply` to the unchanged tree.
   * demo1.py and demo2.py : small standalone programs (run as `PYTHONPATH=<tree>/src /venv/bin/python demoN.py`) that exit 0 and print PASS on the unchanged tree, and exit 1 and print FAIL (with the offending numbers) when mutation N is applied. The demo must check the property as stated (against an independently known exact answer), not merely compare with hard-coded library outputs.
-  * notes.json : a list of two objects {{"mutation": N, "summary": "...", "needs": "what specific configuration/input/sequence is needed for it to manifest", "files": [...], "baseline_104_still_pass": true/false, "demo_fails_with": true/false, "demo_passes_without": true/false}}.
+  * notes.json : a list of two objects {{"mutation": N, "summary": "...", "needs": "what specific configuration/input/sequence is needed for it to manifest", "files": [...], "baseline_still_pass": true/false, "demo_fails_with": true/false, "demo_passes_without": true/false}}.
 Leave the worktree with NO mutation applied at the end (git -C {wt} checkout -- src), only the out/ directory added.
 
 Verify everything yourself before finishing (baseline still passing with each mutation; demo behaviour with and without). In your final message, summarise the two mutations in a few lines each.""")
